@@ -14,6 +14,10 @@
 //!   channels fr       Frame::channels(): len(), every item, len() at the end, two more next()         -> 0 len items.. 0 len_end #Some
 //!   channel fr|i      Frame::channel(i)                                                               -> 1 v | 0
 //!   offset fr|a, scale fr|g, addf fr|other, mulf fr|other, tosigned fr, tofloat fr, equil             -> 0 frame..
+//!   iter kind|fr|script   ONE iterator instance (kind 0 channels() by value, 1 channels_ref(), 2 channels_mut()) driven by a script of
+//!                        steps `code a b`: 0 next, 1 nth(a), 2 by_ref().skip(a).next(), 3 by_ref().step_by(a).take(b).collect(), 4 by_ref().count(),
+//!                        5 by_ref().last(), 6 len()+size_hint(), 7 next_back(), 8 by_ref().rev().take(a).collect() (7, 8: kinds 1, 2 only)
+//!                        -> 0 then per step: Option `1 v`|`0`, list `len items..`, count `n`, len `len lo hi|-1`
 //!   bare only: mapba fr|outs (bare -> [S; 1]), mapab fr|outs ([S; 1] -> bare), addfa fr|other (other: [Signed; 1])
 //! A panic inside an op is observed as `8 k`: 1 = rustc overflow check, 2 = index, 4 = `expect("arithmetic operation
 //! overflowed")` of the I24/I48 operators, 9 = other.
@@ -89,6 +93,40 @@ impl<T: Copy> Iterator for CountIt<T> {
     }
 }
 
+
+/// iterator-adaptor script on one iterator instance; $back = true adds the DoubleEndedIterator steps
+macro_rules! run_script {
+    ($it:expr, $script:expr, $val:expr, $back:tt) => {{
+        let mut it = $it;
+        let val = $val;
+        let mut o: Vec<i128> = Vec::new();
+        for st in $script.chunks(3) {
+            let (a, b) = (st[1] as usize, st[2] as usize);
+            match st[0] {
+                0 => match it.next() { Some(s) => { o.push(1); o.push(val(s)); } None => o.push(0) },
+                1 => match it.nth(a) { Some(s) => { o.push(1); o.push(val(s)); } None => o.push(0) },
+                2 => match it.by_ref().skip(a).next() { Some(s) => { o.push(1); o.push(val(s)); } None => o.push(0) },
+                3 => { let v: Vec<_> = it.by_ref().step_by(a).take(b).collect(); o.push(v.len() as i128); for s in v { o.push(val(s)); } }
+                4 => o.push(it.by_ref().count() as i128),
+                5 => match it.by_ref().last() { Some(s) => { o.push(1); o.push(val(s)); } None => o.push(0) },
+                6 => { let (lo, hi) = it.size_hint(); o.push(it.len() as i128); o.push(lo as i128); o.push(hi.map(|h| h as i128).unwrap_or(-1)); }
+                c => run_script!(@back $back, it, o, val, a, c),
+            }
+        }
+        fmt_obs(0, &o)
+    }};
+    (@back true, $it:ident, $o:ident, $val:ident, $a:ident, $c:ident) => {
+        match $c {
+            7 => match $it.next_back() { Some(s) => { $o.push(1); $o.push($val(s)); } None => $o.push(0) },
+            8 => { let v: Vec<_> = $it.by_ref().rev().take($a).collect(); $o.push(v.len() as i128); for s in v { $o.push($val(s)); } }
+            c => panic!("harness: unknown script step {}", c),
+        }
+    };
+    (@back false, $it:ident, $o:ident, $val:ident, $a:ident, $c:ident) => {
+        panic!("harness: script step {} not available on a by-value Channels iterator", $c)
+    };
+}
+
 /// the Sample:: methods (shared by the array and the bare runners)
 fn sample_op<S>(op: &Op) -> Option<String>
 where S: Sample + Cd, S::Signed: Cd, S::Float: Cd {
@@ -148,6 +186,14 @@ where S: Sample + Cd, S::Signed: Cd, S::Float: Cd {
                 let x2 = it.next().is_some() as i128;
                 o.push(0); o.push(it.len() as i128); o.push(x1 + x2);
                 fmt_obs(0, &o)
+            }
+            "iter" => {
+                let mut fr: [S; N] = arr(&l[1]);
+                match l[0][0] {
+                    0 => run_script!(Frame::channels(fr), &l[2], |s: S| s.val(), false),
+                    1 => run_script!(Frame::channels_ref(&fr), &l[2], |s: &S| s.val(), true),
+                    _ => run_script!(Frame::channels_mut(&mut fr), &l[2], |s: &mut S| s.val(), true),
+                }
             }
             "channel" => {
                 let fr: [S; N] = arr(&l[0]);
@@ -226,6 +272,14 @@ macro_rules! bare_runner {
                         let x2 = it.next().is_some() as i128;
                         o.push(0); o.push(it.len() as i128); o.push(x1 + x2);
                         fmt_obs(0, &o)
+                    }
+                    "iter" => {
+                        let mut s0 = one(&l[1]);
+                        match l[0][0] {
+                            0 => run_script!(Frame::channels(s0), &l[2], |s: S| s.val(), false),
+                            1 => run_script!(Frame::channels_ref(&s0), &l[2], |s: &S| s.val(), true),
+                            _ => run_script!(Frame::channels_mut(&mut s0), &l[2], |s: &mut S| s.val(), true),
+                        }
                     }
                     "channel" => {
                         let s = one(&l[0]);
